@@ -9,6 +9,7 @@ import (
 	"os"
 	"strings"
 	"sync"
+	"time"
 
 	mail "github.com/wneessen/go-mail"
 	"github.com/wneessen/go-mail/smtp"
@@ -37,6 +38,9 @@ type c07Cfg struct {
 	// FB > 0 (implicit TLS only): the Client is configured with WithSSLPort(true) (fallback enabled), the dial to
 	// the primary port is refused, and the fallback port (25) is served by 1 a plain-text SMTP server, 2 an
 	// implicit-TLS server. Whatever answers there, an implicit-TLS client never speaks in clear.
+	// FB == 4 (implicit TLS): history — the Client first dials WITHOUT TLS (plain-text server on the same port) and
+	// closes; the caller then switches to implicit TLS with SetSSL(true) and dials again: that second connection is
+	// the one judged.
 	// FB == 3 (mandatory / opportunistic): WithTLSPortPolicy, the dial to the primary port is refused and the
 	// connection to the fallback port is the one judged.
 	FB int `json:"fb,omitempty"`
@@ -113,8 +117,9 @@ func c07Exec(r *vf.Run, cfg c07Cfg) []finding {
 	}
 	opts := []mail.Option{mail.WithHELO("client.example.test"), mail.WithTLSConfig(hx.ClientTLS(host))}
 	var post []func(*mail.Client)
+	var pre func(cl *mail.Client) bool // history to run on the Client before the judged dial (false: give up)
 	var bridge *hx.Bridge
-	if cfg.Policy == 3 && cfg.FB > 0 {
+	if cfg.Policy == 3 && (cfg.FB == 1 || cfg.FB == 2) {
 		conn.ImplicitTLS = cfg.FB == 2
 		c07FBMu.Lock()
 		defer c07FBMu.Unlock()
@@ -136,6 +141,42 @@ func c07Exec(r *vf.Run, cfg c07Cfg) []finding {
 		// port 1 (tcpmux) of the loopback address is closed: the primary dial is refused, the fallback port is 25
 		opts = append(opts, mail.WithSSLPort(true), mail.WithPort(1))
 		opts[1] = mail.WithTLSConfig(hx.ClientTLS("127.0.0.1"))
+	} else if cfg.Policy == 3 && cfg.FB == 4 {
+		// phase 1: a plain-text server; the Client is configured without TLS and dials it with its default dialer
+		s0 := &refsmtp.Session{Host: host, Caps: caps}
+		s0.NewAuth = saslFactory(nil, c07User, c07Pass, &sasl.Trace{})
+		b0, err := hx.ServeTCP(refsmtp.NewConn(s0))
+		if err != nil {
+			r.HarnessError("C07 listen: %v", err)
+			return nil
+		}
+		port := b0.Port
+		host = "127.0.0.1"
+		opts = append(opts, mail.WithTLSPolicy(mail.NoTLS), mail.WithPort(port))
+		opts[1] = mail.WithTLSConfig(hx.ClientTLS("127.0.0.1"))
+		// the second server is a plain-text one as well: it greets first, so a client that (wrongly) connects without
+		// TLS goes on talking, while an implicit-TLS client sends nothing but its ClientHello
+		conn.ImplicitTLS = false
+		pre = func(cl *mail.Client) bool {
+			if err := cl.DialWithContext(context.Background()); err == nil {
+				_ = cl.Close()
+			}
+			b0.Stop()
+			// phase 2: a new server on the same port, and the caller switches the Client over to implicit TLS
+			var lerr error
+			for try := 0; try < 20; try++ {
+				if bridge, lerr = hx.ServeTCPAt(conn, fmt.Sprintf("127.0.0.1:%d", port)); lerr == nil {
+					break
+				}
+				time.Sleep(10 * time.Millisecond)
+			}
+			if lerr != nil {
+				r.Incomplete(fmt.Sprintf("SetSSL-between-dials case skipped: cannot listen on the port again (%v)", lerr))
+				return false
+			}
+			cl.SetSSL(true)
+			return true
+		}
 	} else if cfg.Policy == 3 {
 		conn.ImplicitTLS = true
 		var err error
@@ -212,6 +253,15 @@ func c07Exec(r *vf.Run, cfg c07Cfg) []finding {
 	}
 	for _, f := range post {
 		f(cl)
+	}
+	if pre != nil {
+		ok := pre(cl)
+		if bridge != nil {
+			defer bridge.Stop()
+		}
+		if !ok {
+			return nil
+		}
 	}
 	if cfg.Prev > 0 && cfg.Policy != 3 {
 		// history: an earlier, successful connection of the same Client
@@ -338,7 +388,7 @@ func c07Exec(r *vf.Run, cfg c07Cfg) []finding {
 		if il.Key == "unknown-command" && strings.Contains(il.What, `"*"`) {
 			continue
 		}
-		if cfg.FB == 1 && len(conn.ClientBytes) > 0 && conn.ClientBytes[0] == 0x16 {
+		if (cfg.FB == 1 || cfg.FB == 4) && len(conn.ClientBytes) > 0 && conn.ClientBytes[0] == 0x16 {
 			break // the plain-text server on the fallback port was sent a TLS ClientHello: no SMTP dialogue to monitor
 		}
 		if custom && il.Key == "not-advertised" {
@@ -369,7 +419,7 @@ func init() {
 	vf.Register(&vf.Check{
 		ID: "C07", Title: "TLS policy and credential confidentiality hold against any server",
 		Run: func(r *vf.Run) {
-			r.SetRule("the full product TLS policy {mandatory, opportunistic, none, implicit (go-mail's own TLS dialer over a loopback bridge)} × 13 auth types × (mandatory/opportunistic) WithTLSPortPolicy with the primary port refusing (also with the policy changed afterwards through SetTLSPolicy, which leaves the fallback port in place) × (implicit TLS) fallback enabled with the primary port refusing and the fallback port 25 served by a plain-text or an implicit-TLS server × configuration through options or through the Client's setters (after construction with the opposite settings) × host name {mail.example.test, five remote names that resemble loopback names (localhost.example.test, 127.0.0.1.example.test, …), localhost, 127.0.0.1} × server behaviour {STARTTLS advertised or not; reply 220 / 454 / 501 / garbage / 220 followed by injected plaintext; handshake ok / wrong-name certificate / untrusted certificate / garbage; 7 advertised AUTH lists}, each executed with real crypto/tls handshakes where reached; oracle on the byte tap of everything the client wrote before/after the switch to TLS; distinct by configuration")
+			r.SetRule("the full product TLS policy {mandatory, opportunistic, none, implicit (go-mail's own TLS dialer over a loopback bridge)} × 13 auth types × (mandatory/opportunistic) WithTLSPortPolicy with the primary port refusing (also with the policy changed afterwards through SetTLSPolicy, which leaves the fallback port in place) × (implicit TLS) a Client that first dialled without TLS and was then switched over with SetSSL(true) × (implicit TLS) fallback enabled with the primary port refusing and the fallback port 25 served by a plain-text or an implicit-TLS server × configuration through options or through the Client's setters (after construction with the opposite settings) × host name {mail.example.test, five remote names that resemble loopback names (localhost.example.test, 127.0.0.1.example.test, …), localhost, 127.0.0.1} × server behaviour {STARTTLS advertised or not; reply 220 / 454 / 501 / garbage / 220 followed by injected plaintext; handshake ok / wrong-name certificate / untrusted certificate / garbage; 7 advertised AUTH lists}, each executed with real crypto/tls handshakes where reached; oracle on the byte tap of everything the client wrote before/after the switch to TLS; distinct by configuration")
 			r.Assume("a completed server-side handshake implies the client accepted the certificate (TLS 1.2/1.3 semantics)", "implicit TLS is only exercised against loopback addresses (go-mail's dialer needs a real socket; the fallback cases listen on port 25 of 127.x.y.z)")
 			var cfgs []c07Cfg
 			for pol := 0; pol < 4; pol++ {
@@ -394,6 +444,9 @@ func init() {
 										continue // quick: half of the (real-socket) implicit-TLS configurations
 									}
 									cfgs = append(cfgs, c07Cfg{Policy: pol, Auth: a, Local: local, HostIdx: hostIdx, HS: hs, AuthList: al})
+									if hostIdx == 1 && hs == 0 {
+										cfgs = append(cfgs, c07Cfg{Policy: pol, Auth: a, Local: local, HostIdx: hostIdx, HS: hs, AuthList: al, FB: 4})
+									}
 									if hostIdx == 1 && (hs == 0 || hs == 1) {
 										cfgs = append(cfgs, c07Cfg{Policy: pol, Auth: a, Local: local, HostIdx: hostIdx, HS: hs, AuthList: al, FB: 2})
 										if hs == 0 {
@@ -461,7 +514,7 @@ func init() {
 					})
 				}
 			})
-			r.Reached("fallback-connection-used/fb=1", "fallback-connection-used/fb=2", "fallback-connection-used/fb=3", "configured-through-setters", "second-dial-judged",
+			r.Reached("fallback-connection-used/fb=1", "fallback-connection-used/fb=2", "fallback-connection-used/fb=3", "fallback-connection-used/fb=4", "configured-through-setters", "second-dial-judged",
 				"tls-established/mandatory", "tls-established/opportunistic", "tls-established/implicit", "authenticated/PLAIN", "authenticated/SCRAM-SHA-256-PLUS")
 		},
 		Replay: func(r *vf.Run, kase json.RawMessage) {
